@@ -167,3 +167,42 @@ func VerifC17SelectorsAfterBuilderRules() {
 		}
 	}
 }
+
+// VerifC17RuleSetsOrder: rules common to all languages are applied — builder rules, then option rules — before
+// the rules of the target language (builder rules, then option rules): a language-specific builder rule that
+// names an option sees the name a common option rule gave it.
+func VerifC17RuleSetsOrder() {
+	p := ast.NewSchema("p", ast.SchemaMeta{})
+	p.AddObject(ast.NewObject("p", "Foo", ast.NewStruct(ast.NewStructField("title", ast.String()), ast.NewStructField("uid", ast.String()))))
+	schemas := ast.Schemas{p}
+	builders := (&ast.BuilderGenerator{}).FromAST(schemas)
+	common := rewrite.LanguageRules{Language: rewrite.AllLanguages,
+		OptionRules: []option.RewriteRule{option.Rename(option.ByName("p", "Foo", "title"), "heading")}}
+	var specific rewrite.LanguageRules
+	promote := v.Bool("promote")
+	if promote {
+		specific = rewrite.LanguageRules{Language: "go", BuilderRules: []builder.RewriteRule{builder.PromoteOptionsToConstructor(builder.ByObjectName("p", "Foo"), []string{"heading"})}}
+	} else {
+		specific = rewrite.LanguageRules{Language: "go", BuilderRules: []builder.RewriteRule{builder.Duplicate(builder.ByObjectName("p", "Foo"), "Lite", []string{"heading"})}}
+	}
+	rw := rewrite.NewRewrite([]rewrite.LanguageRules{common, specific}, rewrite.Config{})
+	out, err := rw.ApplyTo(schemas, builders, "go")
+	v.Assert(err == nil, "C17: a rule sequence made ApplyTo fail")
+	if err != nil {
+		return
+	}
+	for _, b := range out {
+		hasHeading := false
+		for _, o := range b.Options {
+			hasHeading = hasHeading || o.Name == "heading"
+		}
+		if promote {
+			// (promotion adds the constructor argument; the option itself stays)
+			v.Assert(hasHeading && len(b.Constructor.Args) == 1, "C17: a language-specific builder rule does not see the option name a common option rule gave")
+		} else if b.Name == "Lite" {
+			v.Assert(!hasHeading, "C17: a language-specific builder rule does not see the option name a common option rule gave")
+		} else {
+			v.Assert(hasHeading, "C17: the common option rule was not applied")
+		}
+	}
+}
